@@ -602,15 +602,19 @@ def run_forced(job):
     if err or ctl.dead:
         return {"error": err or ctl.dead}
     tidmap = {idents[i]: i for i in range(n)}
+    snap = snapshot(job, auto_obj, tidmap)
+    snap.update({"trace": ctl.trace, "results": results, "bad": bad, "idents_distinct": len(set(idents)) == n})
+    return snap
+
+
+def snapshot(job, auto_obj, tidmap):
+    """the final shared state in the model's layout"""
     fps, seen = fingerprints(job)
 
     def fpnum(key):
         if isinstance(key, tuple):
             key = "".join(key)
         return seen.get(key, 95)
-
-    def enc(c):
-        return c
 
     hheap = []
     for o in REG.hobjs:
@@ -628,6 +632,7 @@ def run_forced(job):
         cache = [[fpnum(k), REG.cons.get(id(v), 96)] for k, v in mem.items()]
         rheap.append([slots, cache])
     bythread = []
+    hards = None
     if auto_obj is not None:
         for k, v in dict.items(auto_obj._hyperoptimizers_by_thread):
             if isinstance(v, R.ReusableOptimizer):
@@ -635,17 +640,13 @@ def run_forced(job):
             else:
                 x = [REG.hnum(v)]
             bythread.append([tidmap.get(k, 94), x[0] if x else 93])
-    hards = None
-    if auto_obj is not None:
-        target = auto_obj
         hards = []
         for (i, o, s) in POOL:
             nn = len(i)
             kk = sum(len(t) for t in i) / nn
-            hards.append(bool(nn ** 2 * kk ** 0.5 >= target.optimal_cutoff))
-    return {"trace": ctl.trace, "results": results, "hheap": hheap, "rheap": rheap, "bythread": bythread,
-            "fps": fps, "hards": hards, "scores": REG.scores, "stops": REG.stops, "escores": REG.escores,
-            "bad": bad, "idents_distinct": len(set(idents)) == n}
+            hards.append(bool(nn ** 2 * kk ** 0.5 >= auto_obj.optimal_cutoff))
+    return {"hheap": hheap, "rheap": rheap, "bythread": bythread, "fps": fps, "hards": hards,
+            "scores": REG.scores, "stops": REG.stops, "escores": REG.escores}
 
 
 def run_seq(job):
@@ -738,22 +739,33 @@ def nest_direct_fn(inputs, output, size_dict, dummy=0, **kw):
     """a trial function that, in the middle of its work, queries the shared optimizer about another contraction"""
     if NEST["target"] is not None and getattr(TL, "depth", 0) == 0 and NEST["inner"]:
         TL.depth = 1
-        saved = getattr(TL, "autocompleted", None)
+        saved = {k: getattr(TL, k, None) for k in ("autocompleted", "q", "ran", "in_reusable", "idx")}
         try:
             qb = NEST["inner"][NEST["used"] % len(NEST["inner"])]
             NEST["used"] += 1
+            if NEST.get("record"):          # the nested query is virtual thread 1 of the recorded trace
+                TL.idx = 1
+                TL.q = qb
+                TL.in_reusable = False
+                yp(L_BEGIN)
             try:
                 kind, val = ask(NEST["target"], NEST["inner_api"], qb)
                 msg = judge(kind, val, qb)
                 NEST["log"].append(qb)
+                if NEST.get("record"):
+                    NEST["results"].append([qb] + (classify(val) if kind == "tree" else classify_path(val, qb)))
                 if msg:
                     NEST["bad"].append({"inner_query": qb, "what": "NESTED query got a wrong result: " + msg,
                                         "got": describe(kind, val)})
             except Exception as e:
+                NEST["log"].append(qb)
+                if NEST.get("record"):
+                    NEST["results"].append([qb, 9])
                 NEST["bad"].append({"inner_query": qb, "raised": repr(e)})
         finally:
             TL.depth = 0
-            TL.autocompleted = saved
+            for k, v in saved.items():
+                setattr(TL, k, v)
     return _greedy_tree(inputs, output, size_dict)
 
 
@@ -779,7 +791,67 @@ def nest_builder_fn(inputs, output, size_dict, dummy=0, **kw):
         TL.depth -= 1
 
 
+class Recorder:
+    """a controller that never blocks: it only records (virtual thread, label) at every yield point.  Used for
+    NESTED runs on one real thread: virtual thread 0 = the outer queries, 1 = the nested ones (same thread id)"""
+
+    def __init__(self):
+        self.trace = []
+
+    def yield_point(self, label):
+        self.trace.append([getattr(TL, "idx", 0), label])
+
+
 _NEST_REGISTERED = []
+
+
+def run_nested_recorded(job):
+    """a nested history under the instrumentation of the forced runs; returns what run_forced returns, with the
+    nested queries as virtual thread 1 (for the model: a second thread with the SAME id)"""
+    global CTL, REG
+    REG = Registry()
+    load_pool(job)
+    if not _NEST_REGISTERED:
+        space = {"dummy": {"type": "INT", "min": 0, "max": 3}}
+        H.register_hyper_function("c16-nest-direct", nest_direct_fn, space)
+        H.register_hyper_function("c16-nest-builder", nest_builder_fn, space)
+        _NEST_REGISTERED.append(1)
+    target = make_target(job)
+    auto_obj = target if isinstance(target, P.AutoOptimizer) else None
+    api = job.get("api", "tree")
+    NEST.update(target=target, inner_api=api, inner=list(job.get("inner", [])), used=0, log=[], bad=[],
+                record=True, results=[])
+    rec = Recorder()
+    CTL = rec
+    TL.idx = 0
+    outer, bad = [], []
+    try:
+        for q in job["history"]:
+            TL.q = q
+            yp(L_BEGIN)
+            try:
+                kind, val = ask(target, api, q)
+            except Exception as e:
+                outer.append([q, 9])
+                bad.append({"thread": 0, "query": q, "raised": repr(e)})
+                continue
+            prov = classify(val) if kind == "tree" else classify_path(val, q)
+            outer.append([q] + prov)
+            msg = judge(kind, val, q)
+            if msg:
+                bad.append({"thread": 0, "query": q, "what": msg, "got": describe(kind, val), "provenance": prov})
+    finally:
+        CTL = None
+        TL.idx = None
+        inner_results = list(NEST.get("results", []))
+        inner_program = list(NEST["log"])
+        for b in NEST["bad"]:
+            bad.append(dict(b, thread=1, query=b["inner_query"]))
+        NEST.update(target=None, record=False)
+    snap = snapshot(job, auto_obj, {threading.get_ident(): 0})
+    snap.update({"trace": rec.trace, "results": [outer, inner_results], "bad": bad, "idents_distinct": True,
+                 "programs": [list(job["history"]), inner_program]})
+    return snap
 
 
 def run_nested(job):
@@ -826,7 +898,7 @@ def run_nested(job):
 
 def main():
     data = json.load(sys.stdin)
-    patch_needed = any(j["kind"] == "forced" for j in data["jobs"])
+    patch_needed = any(j["kind"] in ("forced", "nested_forced") for j in data["jobs"])
     if patch_needed:
         patch()
     out = []
@@ -836,6 +908,8 @@ def main():
                 out.append(run_forced(job))
             elif job["kind"] == "seq":
                 out.append(run_seq(job))
+            elif job["kind"] == "nested_forced":
+                out.append(run_nested_recorded(job))
             elif job["kind"] == "nested":
                 out.append(run_nested(job))
             elif job["kind"] == "stress":
